@@ -1,10 +1,11 @@
 (* Property C08 — rule-language type soundness.
    Model: MiluEval.v (checker type_of and evaluator value_of as the milu crate implements them
    after the fix: commits, in the redproxy script environment).  This file holds the property
-   theorems that are proved; the full induction (soundness for the let-free fragment) is added
-   from MiluSound.v when present.  The two recorded holes are proved as refutations with
-   concrete witnesses, replayed on the implementation by checks/c08.py. *)
-From RP Require Import Base Target MiluSyntax MiluDoc MiluEval C08Proofs.
+   theorems; the soundness induction for the let-free fragment is in MiluSound.v.  The two
+   recorded holes are proved as refutations with concrete witnesses, replayed on the
+   implementation by checks/c08.py.  Not proved: soundness for programs with `let` (outside the
+   two known classes it is covered by the differential check only). *)
+From RP Require Import Base Target MiluSyntax MiluDoc MiluEval C08Proofs MiluSound MiluWf.
 From Coq Require Import ZArith String.
 
 Theorem C08_int_op_total : forall name a b, is_int_op name = true ->
@@ -44,3 +45,51 @@ Theorem C08_soundness_refuted_aggregate_shadowed :
   real_value_of (fun _ _ => Some false) (fun _ _ => false) (mk_req [] [] [] (mk_addr 1 [] 0 [] []) (mk_addr 1 [] 0 [] [])) 50 [] hole_shadow = Err E_TYPE.
 Proof. exact soundness_refuted_shadow. Qed.
 Print Assumptions C08_soundness_refuted_aggregate_shadowed.
+
+(* Type soundness, let-free fragment (wf_lf: what the parser builds, no `let`, no `[]`):
+   for EVERY such expression, every request, every oracle behaviour and every fuel, if the
+   checker accepts with type T then evaluation is a value of type T or an inherently dynamic
+   error (arithmetic, index, regex, non-numeric string; or out of fuel) - never a panic, never a
+   type error. *)
+Theorem C08_type_soundness_let_free :
+  forall regex_match cidr_match_text rq fuel1 fuel2 e T,
+    wf_lf e ->
+    type_of regex_match cidr_match_text rq fuel1 [] e = Ok T ->
+    match value_of regex_match cidr_match_text rq fuel2 [] e with
+    | Ok v => vtyped regex_match cidr_match_text rq v T
+    | Err c => c <> E_TYPE
+    | Panic _ => False
+    end.
+Proof. exact soundness_let_free. Qed.
+Print Assumptions C08_type_soundness_let_free.
+
+(* ... at the entry points used for rule filters, load-balancer keys and log formats
+   (real_type_of at load, real_value_of per request), with the strict value typing *)
+Theorem C08_type_soundness_entry_points :
+  forall regex_match cidr_match_text rq fuel1 fuel2 e T,
+    wf_lf e ->
+    real_type_of regex_match cidr_match_text rq fuel1 [] e = Ok T ->
+    match real_value_of regex_match cidr_match_text rq fuel2 [] e with
+    | Ok v => vtyped_strict regex_match cidr_match_text rq v T
+    | Err c => c <> E_TYPE
+    | Panic _ => False
+    end.
+Proof. exact soundness_let_free_real_strict. Qed.
+Print Assumptions C08_type_soundness_entry_points.
+
+(* the checker itself never panics on such expressions and never produces `any` *)
+Theorem C08_checker_total :
+  forall regex_match cidr_match_text rq fuel e,
+    wf_lf e ->
+    match type_of regex_match cidr_match_text rq fuel [] e with
+    | Ok T => goodb T = true
+    | Err _ => True
+    | Panic _ => False
+    end.
+Proof. exact type_of_total_good. Qed.
+Print Assumptions C08_checker_total.
+
+(* the executable well-formedness test used by the correspondence check implies wf_lf *)
+Theorem C08_wf_check_sound : forall e, wf_lfb e = true -> wf_lf e.
+Proof. exact wf_lfb_sound. Qed.
+Print Assumptions C08_wf_check_sound.
